@@ -105,6 +105,18 @@ def scenarios(rng: random.Random, tier: str):
                    "rx 1 " + nodegen.ccr(n(), 7200, "peer1.x", flags=208), "rx 1 " + nodegen.ccr(n(), 7201, "peer1.x", flags=208),
                    "ans 0 1 2001", "rx 1 " + nodegen.ccr(n(), 7201, "peer1.x", flags=208)]
             out.insert(0, pre + " | " + " | ".join(evs))
+    # two origins use the same end-to-end id at the same time (both pending, then both answered / only one answered),
+    # then each repeats its request with the T flag
+    for rq in (1, 2, 4):
+        pre = (cfg_line(rq) + " | start | acc | acc | rx 0 " + nodegen.cer("peer1.x", "4", n(), n()) +
+               " | rx 1 " + nodegen.cer("peer2.x", "4", n(), n()))
+        for e in (7300, 0):
+            both = ["rx 0 " + nodegen.ccr(n(), e, "peer1.x"), "rx 1 " + nodegen.ccr(n(), e, "peer2.x")]
+            rep = ["rx 0 " + nodegen.ccr(n(), e, "peer1.x", flags=208), "rx 1 " + nodegen.ccr(n(), e, "peer2.x", flags=208)]
+            out.insert(0, pre + " | " + " | ".join(both + ["ans 0 0 2001", "ans 0 1 2001"] + rep))
+            out.insert(0, pre + " | " + " | ".join(both + ["ans 0 1 2001", "ans 0 0 2001"] + rep[::-1]))
+            out.insert(0, pre + " | " + " | ".join(both + ["ans 0 0 2001"] + rep))
+            out.insert(0, pre + " | " + " | ".join(both + ["ans 0 1 2001"] + rep))
     # the same id answered twice (repeat without T), window just full, then a T-flagged repeat
     for rq in (2, 3, 4):
         pre = (cfg_line(rq) + " | start | acc | rx 0 " + nodegen.cer("peer1.x", "4", n(), n()))
